@@ -165,12 +165,24 @@ def split_inputs(A, w, W, v, p, directed):
     return A2, w2, W2
 
 
-def build(cls, A, w, W, directed):
+def build(cls, A, w, W, directed, warm=None):
+    """``warm`` (a list of (method, kwargs)): the object is first built with
+    OTHER positive weights, the listed measures are evaluated, and only then
+    the weights of the case are assigned through the public setter - a
+    network "with positive node weights" all the same."""
+    w0 = w if warm is None else 1.5 * np.asarray(w, float)[::-1] + 0.25
     net = cls(adjacency=G.represent_adj(A), directed=directed,
-              node_weights=G.represent_weights(w),
+              node_weights=G.represent_weights(w0),
               silence_level=3)
     if W is not None:
         net.set_link_attribute("la", np.asarray(W, dtype=float))
+    if warm is not None:
+        for meth, kw in warm:
+            try:
+                getattr(net, meth)(**kw)
+            except Exception:  # pylint: disable=broad-except
+                pass           # judged on the final state below
+        net.node_weights = G.represent_weights(w)
     return net
 
 
@@ -258,9 +270,22 @@ def oracle_network(case, rec):
     if W is not None:
         rec.label("with_link_attr")
     A2, w2, W2, parents = apply_splits(case, A, w, W, directed)
-    ok1, net = rec.call("construct", build, Network, A, w, W, directed)
+    from vp.pbt import case_hash
+    hk = int(case_hash(case)[:8], 16)
+    # a quarter of the cases: one of the two objects is long-lived (other
+    # weights first, a share of the measures evaluated, then re-weighted)
+    warm = [None, None]
+    if hk % 4 == 0:
+        tb = NET_DIRECTED if directed else list(NET_UNDIRECTED)
+        warm[(hk >> 2) & 1] = [
+            (_base(nm), kw) for i, (nm, _, kw) in enumerate(tb)
+            if ((hk >> 3) + i) % 3 == 0 and not ("key" in kw and W is None)
+            and "eigenvector" not in nm]
+        rec.label("reweighted_long_lived_object")
+    ok1, net = rec.call("construct", build, Network, A, w, W, directed,
+                        warm[0])
     ok2, net2 = rec.call("construct_split", build, Network, A2, w2, W2,
-                         directed)
+                         directed, warm[1])
     if not (ok1 and ok2):
         return
     # splitted_copy() against the harness's own construction (first split)
@@ -285,8 +310,6 @@ def oracle_network(case, rec):
     # case-dependent order of the measure table (the same on both objects):
     # a measure that disturbs shared cached state then precedes its victims
     # in a share of the cases
-    from vp.pbt import case_hash
-    hk = int(case_hash(case)[:8], 16)
     table = [table[i] for i in sorted(
         range(len(table)), key=lambda i: (hk * (2 * i + 1) + 7919 * i)
         % 1000003)]
